@@ -146,7 +146,7 @@ func (i *interpreter) bigGet(p *value) bigVal {
 	return bv
 }
 
-var bigReadOnly = map[string]bool{"Bit": true, "Uint64": true, "Int64": true, "Sign": true, "Cmp": true, "Bytes": true, "BitLen": true, "IsUint64": true}
+var bigReadOnly = map[string]bool{"Bit": true, "Uint64": true, "Int64": true, "Sign": true, "Cmp": true, "Bytes": true, "FillBytes": true, "BitLen": true, "IsUint64": true}
 
 // bigResolve replaces symbolic-pointer operands (see itePtr) by a temporary
 // object holding the ite of the alternatives' values; a symbolic-pointer
@@ -431,11 +431,105 @@ func init() {
 			if !bigAnySym(i, x, y) {
 				return notHandled{}
 			}
-			a, b := i.bigTC(i.bigGet(x)), i.bigTC(i.bigGet(y))
+			xv, yv := i.bigGet(x), i.bigGet(y)
+			if op == OpBVAdd && xv.neg.IsFalse() && yv.neg.IsFalse() && leadingZeroBits(xv.abs) >= 1 && leadingZeroBits(yv.abs) >= 1 {
+				// two non-negative values with a spare top bit: no overflow possible
+				i.bigPut(z, i.tt.False, i.tt.BV(OpBVAdd, xv.abs, yv.abs))
+				return z
+			}
+			a, b := i.bigTC(xv), i.bigTC(yv)
 			i.bigFromTC(z, i.tt.BV(op, a, b), what)
 			return z
 		}
 	}
+	reg("Mul", func(fr *frame, args []value) value {
+		i := fr.i
+		z, x, y := args[0].(*value), args[1].(*value), args[2].(*value)
+		if !bigAnySym(i, x, y) {
+			return notHandled{}
+		}
+		tt := i.tt
+		W := i.bigW()
+		xv, yv := i.bigGet(x), i.bigGet(y)
+		neg := tt.Not(tt.Eq(xv.neg, yv.neg))
+		if i.cfg.BigArith == "uf" {
+			i.bigPut(z, neg, tt.UF("big.Mul", W, xv.abs, yv.abs))
+			return z
+		}
+		na, nb := W-leadingZeroBits(xv.abs), W-leadingZeroBits(yv.abs)
+		if na < 1 {
+			na = 1
+		}
+		if nb < 1 {
+			nb = 1
+		}
+		if na+nb <= W {
+			n := na + nb
+			p := tt.BV(OpBVMul, tt.ZExt(tt.Extract(xv.abs, na-1, 0), n), tt.ZExt(tt.Extract(yv.abs, nb-1, 0), n))
+			i.bigPut(z, neg, tt.ZExt(p, W))
+			return z
+		}
+		p := tt.BV(OpBVMul, tt.ZExt(xv.abs, 2*W), tt.ZExt(yv.abs, 2*W))
+		if i.decide(tt.Not(tt.Eq(tt.Extract(p, 2*W-1, W), tt.Zero(W))), "big.Int.Mul overflow") {
+			panic(engineError("big.Int model width exceeded in Mul"))
+		}
+		i.bigPut(z, neg, tt.Extract(p, W-1, 0))
+		return z
+	})
+	// Mod is Go's Euclidean modulus: 0 <= z < |y|, panics for y == 0.
+	reg("Mod", func(fr *frame, args []value) value {
+		i := fr.i
+		z, x, y := args[0].(*value), args[1].(*value), args[2].(*value)
+		if !bigAnySym(i, x, y) {
+			return notHandled{}
+		}
+		tt := i.tt
+		W := i.bigW()
+		xv, yv := i.bigGet(x), i.bigGet(y)
+		if i.decide(tt.Eq(yv.abs, tt.Zero(W)), "big.Int.Mod by zero") {
+			i.raise(targetPanic{"division by zero"})
+		}
+		nx, ny := W-leadingZeroBits(xv.abs), W-leadingZeroBits(yv.abs)
+		if nx < 1 {
+			nx = 1
+		}
+		if ny < 1 {
+			ny = 1
+		}
+		// Uninterpreted Mod (uf mode; in bit-vector mode for dividends wider
+		// than 64 bits, where a bit-blasted remainder does not finish): an
+		// arbitrary function constrained by the documented contract of Mod,
+		// true of the real function: Mod(x, y) = x for 0 <= x < y, and
+		// 0 <= Mod(x, y) < y.  A sound over-approximation.
+		if i.cfg.BigArith == "uf" || nx > 64 {
+			if i.decide(xv.neg, "big.Int.Mod of a negative value") {
+				panic(engineError("big.Int.Mod of a negative symbolic value is not modelled by the uninterpreted Mod"))
+			}
+			// the result is below y < 2^ny: keep it ny bits wide so that later
+			// operations see its range (x < y implies x fits ny bits too)
+			if ny > 64 {
+				u := tt.ZExt(tt.UF(fmt.Sprintf("big.Mod%d", ny), ny, xv.abs, yv.abs), W)
+				i.bigPut(z, tt.False, tt.Ite(tt.Cmp(OpBVUlt, xv.abs, yv.abs), xv.abs, u))
+				i.assumeContract(tt.Cmp(OpBVUlt, u, yv.abs))
+				return z
+			}
+			un := tt.UF(fmt.Sprintf("big.Mod%d", ny), ny, xv.abs, yv.abs)
+			rn := tt.Ite(tt.Cmp(OpBVUlt, xv.abs, yv.abs), tt.Extract(xv.abs, ny-1, 0), un)
+			i.bigPut(z, tt.False, tt.ZExt(rn, W))
+			i.assumeContract(tt.Cmp(OpBVUlt, tt.ZExt(un, W), yv.abs))
+			return z
+		}
+		n := nx
+		if ny > n {
+			n = ny
+		}
+		yn := tt.Extract(yv.abs, n-1, 0)
+		m := tt.BV(OpBVURem, tt.Extract(xv.abs, n-1, 0), yn)
+		r := tt.Ite(tt.And(xv.neg, tt.Not(tt.Eq(m, tt.Zero(n)))), tt.BV(OpBVSub, yn, m), m)
+		k := ny // 0 <= r < |y| < 2^ny
+		i.bigPut(z, tt.False, tt.ZExt(tt.Extract(r, k-1, 0), W))
+		return z
+	})
 	reg("Add", arith(OpBVAdd, "Add"))
 	reg("Sub", arith(OpBVSub, "Sub"))
 	bitwise := func(op Op, not bool, what string) externalFn {
@@ -552,6 +646,34 @@ func init() {
 			out[n-1-k] = i.mkval(tt.Extract(xv.abs, 8*k+7, 8*k), types.Uint8)
 		}
 		return out
+	})
+	reg("FillBytes", func(fr *frame, args []value) value {
+		i := fr.i
+		x := args[0].(*value)
+		if !bigAnySym(i, x) {
+			return notHandled{}
+		}
+		buf := args[1].([]value)
+		if i.guard != nil && !i.guard.IsTrue() {
+			panic(unmergeable{"big.Int.FillBytes under guard"})
+		}
+		xv := i.bigGet(x)
+		tt := i.tt
+		W := i.bigW()
+		if 8*len(buf) < W {
+			if i.decide(tt.Not(tt.Eq(tt.Extract(xv.abs, W-1, 8*len(buf)), tt.Zero(W-8*len(buf)))), "big.Int.FillBytes: buffer too small") {
+				i.raise(targetPanic{"math/big: buffer too small to fit value"})
+			}
+		}
+		n := len(buf)
+		for k := 0; k < n; k++ {
+			if 8*k+7 < W {
+				buf[n-1-k] = i.mkval(tt.Extract(xv.abs, 8*k+7, 8*k), types.Uint8)
+			} else {
+				buf[n-1-k] = uint8(0)
+			}
+		}
+		return args[1]
 	})
 	reg("SetBytes", func(fr *frame, args []value) value {
 		i := fr.i
